@@ -168,7 +168,7 @@ def collapse(ch, want=None):
     if not alts:
         raise Unsupported('empty choice')
     k = want or kind_of(ch)
-    if all(isinstance(x, (SChar, str)) for _, x in alts):
+    if all(isinstance(x, SChar) or (isinstance(x, str) and len(x) == 1) for _, x in alts):
         es = [x.e if isinstance(x, SChar) else z3.IntVal(ord(x)) for _, x in alts]
         e = es[-1]
         for (c, _), ee in zip(reversed(alts[:-1]), reversed(es[:-1])):
@@ -336,9 +336,10 @@ def char_code(v):
     if isinstance(v, str) and len(v) == 1:
         return z3.IntVal(ord(v))
     if isinstance(v, Choice):
-        c = collapse(v)
-        if isinstance(c, SChar):
-            return c.e
+        if all(isinstance(x, SChar) or (isinstance(x, str) and len(x) == 1) for _, x in v.alts):
+            c = collapse(v)
+            if isinstance(c, SChar):
+                return c.e
     return None
 
 
@@ -627,6 +628,9 @@ def nd_compare(op, a, b):
 
 def equal(a, b):
     """Python == as a value (Python bool or Sym bool)"""
+    if (isinstance(a, Choice) and not is_num_choice(a) and char_code(a) is None) or \
+            (isinstance(b, Choice) and not is_num_choice(b) and char_code(b) is None):
+        return compare('==', a, b)
     if a is None or b is None:
         if is_symbolic(a) or is_symbolic(b):
             return False
@@ -701,7 +705,7 @@ def contains(container, x):
             return x in container
         res = False
         for it in items:
-            res = lor(res, equal(x, it))
+            res = lor(res, compare('==', x, it) if isinstance(x, Choice) or isinstance(it, Choice) else equal(x, it))
         return res
     if isinstance(container, dict):
         return contains(list(container.keys()), x)
